@@ -108,7 +108,7 @@ def alphabet_of(g):
             menu = RX_MENU_BYTES if isinstance(n[1], bytes) else RX_MENU
             for m in menu.values():
                 if m[0] == n[1]:
-                    out.update(m[2] if m[2] is not None else "efghijk")
+                    out.update(m[2] if m[2] is not None else ("0123456789." if "0-9" in m[0] else "efghijk"))
         elif k in ("cat", "alt"):
             for x in n[1]:
                 walk(x)
